@@ -30,7 +30,7 @@ const labNet = uint32(10<<24 | 0<<16 | 0<<8 | 0) // 10.0.0.0/24 lives on veth0
 
 func labMAC(v uint32) uint64 { return 0x020000000000 | uint64(v&0xffffff) | 0x0000aa000000 }
 
-func macText(m uint64) string {
+func e2eMacText(m uint64) string {
 	return fmt.Sprintf("%02x:%02x:%02x:%02x:%02x:%02x", byte(m>>40), byte(m>>32), byte(m>>24), byte(m>>16), byte(m>>8), byte(m))
 }
 
@@ -340,10 +340,10 @@ func e2eComponent(r *hx.Run) {
 				seen[t] = true
 				m := labMAC(t)
 				entries = append(entries, fmt.Sprintf("%d:0:%d", t, m))
-				sb.WriteString(fmt.Sprintf("{\"ip\":\"%s\",\"mac\":\"%s\",\"vendor\":\"x\"}\n", v4Text(t), macText(m)))
+				sb.WriteString(fmt.Sprintf("{\"ip\":\"%s\",\"mac\":\"%s\",\"vendor\":\"x\"}\n", v4Text(t), e2eMacText(m)))
 			}
 			// the gateway's own entry (10.0.0.254) is what getGatewayMAC looks up
-			sb.WriteString(fmt.Sprintf("{\"ip\":\"10.0.0.254\",\"mac\":\"%s\"}\n", macText(gwMAC)))
+			sb.WriteString(fmt.Sprintf("{\"ip\":\"10.0.0.254\",\"mac\":\"%s\"}\n", e2eMacText(gwMAC)))
 			entries = append(entries, fmt.Sprintf("%d:0:%d", labNet|254, gwMAC))
 			p := filepath.Join(cdir, "arp.cache")
 			os.WriteFile(p, []byte(sb.String()), 0o644)
@@ -372,7 +372,7 @@ func e2eComponent(r *hx.Run) {
 				}
 				sort.Strings(views)
 				obs = "OK " + strings.Join(views, "|")
-				r.Count(fmt.Sprintf("frames:%d", bucket(len(views))))
+				r.Count(fmt.Sprintf("frames:%d", e2eBucket(len(views))))
 			}
 		}
 		class := strings.Join(c.sub, " ") + "/" + c.src[:3]
@@ -390,7 +390,7 @@ func e2eComponent(r *hx.Run) {
 	}
 }
 
-func bucket(n int) int {
+func e2eBucket(n int) int {
 	switch {
 	case n == 0:
 		return 0
